@@ -449,6 +449,12 @@ func verifyAndFillConfig(cfg *ResponseConfig, nowMS int) error {
 			return fmt.Errorf("timeShiftBufferDepth %ds is not less than %ds", tsbd, MAX_TIME_SHIFT_BUFFER_DEPTH_S)
 		}
 	}
+	if cfg.StartNr != nil && *cfg.StartNr == -1 { // -1 means the implicit default start number (1)
+		cfg.StartNr = nil
+	}
+	if ato := cfg.AvailabilityTimeOffsetS; ato < 0 || math.IsNaN(ato) {
+		return fmt.Errorf("availabilityTimeOffset must not be negative")
+	}
 	if cfg.StartNr != nil && (*cfg.StartNr < 0 || *cfg.StartNr > maxStartNr) {
 		return fmt.Errorf("start number must be in the range 0-%d", maxStartNr)
 	}
